@@ -61,7 +61,13 @@ class CombinedAnalysis(Analysis):
     def __new__(cls, *analyses, **kwargs):
         from .model_analysis import ModelAnalysis, CombinedModelAnalysis
 
-        if any(isinstance(analysis, ModelAnalysis) for analysis in analyses):
+        # an analysis taken from an existing combined analysis may be wrapped
+        # in an IndexedAnalysis
+        if any(
+            isinstance(analysis, ModelAnalysis)
+            or isinstance(getattr(analysis, "analysis", None), ModelAnalysis)
+            for analysis in analyses
+        ):
             return object.__new__(CombinedModelAnalysis)
         return object.__new__(cls)
 
